@@ -336,7 +336,10 @@ def canon_rec(rec):
 # --------------------------------------------------------------------------------------
 # molecule generator
 
-_WORDS = ["a", "x1", "mine", "A", "Ab3", "frag_2", "_", "0", "q9"]
+_WORDS = ["a", "x1", "mine", "A", "Ab3", "frag_2", "_", "0", "q9",
+          # labels that spell the grammar's own keywords / number shapes: a label is data, never a directive
+          "nocom", "no_com", "noreorient", "no_reorient", "com", "reorient", "bohr", "ang", "angstrom", "au", "units", "unit_bohr", "symmetry", "symmetry_c1",
+          "c2v", "gh", "efp", "pubchem", "1e5", "0_1", "d2", "x_nocom_y", "2_no_reorient_3"]
 
 
 def _elements():
@@ -399,7 +402,14 @@ def gen_spec(rng):
             m += 2
         fc.append(c)
         fm.append(m)
+    # total multiplicity: usually left to the completion (high-spin sum); sometimes a LOWER, parity-correct coupling of open-shell
+    # fragments (two doublets as a singlet, triplet + doublet as a doublet): the texts carry the total as written, not a re-derived one
+    mm = None
+    hs = 1 + sum(m - 1 for m in fm)
+    if nfr >= 2 and hs >= 3 and rng.random() < 0.5:
+        mm = rng.choice(list(range(hs - 2, 0, -2)))
     spec = {
+        "mm": mm,
         "elem": elem, "real": real, "elbl": elbl, "geom": geom, "units": units, "seps": cuts, "fc": fc, "fm": fm,
         "fix_com": rng.random() < 0.35, "fix_orientation": rng.random() < 0.35,
         "name": rng.choice([None, None, None, "mol1", "water_dimer", "X"]),
@@ -426,7 +436,8 @@ def build(spec):
         rec = from_arrays(
             geom=[float(x) for x in spec["geom"]], elem=spec["elem"], real=spec["real"], elbl=spec["elbl"], units=spec["units"],
             fragment_separators=spec["seps"], fragment_charges=[float(c) for c in spec["fc"]], fragment_multiplicities=spec["fm"],
-            fix_com=spec["fix_com"], fix_orientation=spec["fix_orientation"], speclabel=False, **kw,
+            fix_com=spec["fix_com"], fix_orientation=spec["fix_orientation"], speclabel=False,
+            **({"molecular_multiplicity": spec["mm"]} if spec.get("mm") else {}), **kw,
         )
         if spec.get("canon"):  # validating constructor: geometry rounded to 8 decimals [Bohr]
             return qcel.models.Molecule(**to_schema(rec, dtype=2), validate=True)
